@@ -822,6 +822,10 @@ class FnItem:
         if sp.get("profile_debug") is not None:
             body, h = r4_cfg_resolve(body, sp["profile_debug"])
             hits["R4"] = h
+        for extra in sp.get("pre_rewrites", []):
+            # unit-local rewrites that must run before the language desugarings (e.g. a visitor callback turned into a `for` loop)
+            body, h = extra(body)
+            hits[extra.__name__] = h
         body, h = r2_rate_limit(body)
         hits["R2"] = h
         body, h = r1_drop_log(body)
@@ -918,8 +922,7 @@ class FnItem:
                 elif t.text in (")", "]", "}"):
                     depth -= 1
                 elif t.text == "->" and depth == 0:
-                    arrow = i
-                    break
+                    arrow = i      # the LAST top-level arrow: an earlier one belongs to a `Fn() -> T` bound in the generics
             if arrow is None:
                 raise Undecided("%s: no return type to name" % self.name)
             # return type ends at `where` (depth 0) or end
@@ -1005,12 +1008,36 @@ def _norm_with_offsets(text):
 
 
 def _find_anchor(toks, anchor):
+    """Occurrences of the anchor token sequence.  The pseudo-token `___` (three underscores) matches any run of tokens up to the
+    first occurrence of the anchor token that follows it (so `let x = y . ___ ;` anchors on that statement whatever the call is)."""
     atoks = [t.text for t in tokenize(anchor)]
     res = []
-    n = len(atoks)
-    for i in range(len(toks) - n + 1):
-        if all(toks[i + k].text == atoks[k] for k in range(n)):
-            res.append((toks[i].start, toks[i + n - 1].end))
+    for i in range(len(toks)):
+        k, j, ok = 0, i, True
+        while k < len(atoks):
+            if atoks[k] == "___":
+                nxt = atoks[k + 1] if k + 1 < len(atoks) else None
+                depth = 0
+                while j < len(toks) and not (depth == 0 and toks[j].text == nxt):
+                    if toks[j].text in ("(", "[", "{"):
+                        depth += 1
+                    elif toks[j].text in (")", "]", "}"):
+                        depth -= 1
+                        if depth < 0:
+                            break
+                    j += 1
+                if j >= len(toks) or depth < 0:
+                    ok = False
+                    break
+                k += 1
+                continue
+            if j >= len(toks) or toks[j].text != atoks[k]:
+                ok = False
+                break
+            j += 1
+            k += 1
+        if ok and j > i:
+            res.append((toks[i].start, toks[j - 1].end))
     return res
 
 
